@@ -413,6 +413,55 @@ fn check(b: &Built, rep: &mut Report) {
         }
         rep.add("healthy_frames_compared", a.written[i].iter().filter(|b| **b == 0).count() as u64);
     }
+    // the faulty client's own connection: what it is owed is not constrained - except that answers stay in
+    // position. If the server answers a call that follows a frame it could not serve, that frame must have been
+    // answered with something too (an error reply); otherwise the client, which matches replies to calls by
+    // position, reads every later answer as the answer to the previous call.
+    if let (Some(raw), Ok(out_frames)) = (&scn.conns[f].raw, parse_output(&a.written[f])) {
+        let (in_frames, _) = vnet::split_frames(raw);
+        let mut expecting_before = 0usize; // reply-expecting frames (served or not) in front of the current one
+        let mut unserved_before = false;
+        let mut streams_before = false;
+        for fr in in_frames.iter().filter(|x| !x.is_empty()) {
+            match serde_json::from_slice::<zlink_core::Call<M<'_>>>(fr) {
+                Ok(c) => {
+                    let (seq, is_sub) = match c.method() {
+                        M::Echo { seq, .. } | M::Fail { seq, .. } => (*seq, false),
+                        M::Sub { seq, .. } => (*seq, true),
+                    };
+                    if c.oneway() {
+                        continue;
+                    }
+                    if is_sub {
+                        streams_before = true;
+                    }
+                    if unserved_before && !streams_before {
+                        if let Some(at) = out_frames.iter().position(|o| o["parameters"]["client"] == json!(f) && o["parameters"]["seq"] == json!(seq) && o["parameters"].get("n").is_none()) {
+                            rep.count("faulty_client_answers_checked_for_position");
+                            if at < expecting_before {
+                                bad = true;
+                                rep.violation(
+                                    "C09/answer-out-of-position-behind-an-unanswered-call",
+                                    format!("conn{f}: the answer to call #{seq} is frame {at} of its connection, but {expecting_before} frames that expect a reply were sent before that call (one of which the server could not serve and did not answer): a client that matches replies by position reads it as the answer to an earlier call; output {}; {}", vnet::json::show(&a.written[f]), desc()),
+                                    replay(),
+                                );
+                                break;
+                            }
+                        }
+                    }
+                    expecting_before += 1;
+                }
+                Err(_) => {
+                    // not a call of the service: expects a reply unless it says oneway itself
+                    let oneway = serde_json::from_slice::<serde_json::Value>(fr).ok().map_or(false, |v| v["oneway"] == json!(true));
+                    if !oneway {
+                        expecting_before += 1;
+                        unserved_before = true;
+                    }
+                }
+            }
+        }
+    }
     // the healthy connections must also match the sequential reference on their own
     let mut stats = std::collections::BTreeMap::new();
     for (sig, detail) in check_reference("C09", scn, &a, &mut stats) {
